@@ -214,9 +214,18 @@ func DistMatrix(al align.Alignment, weights []float64, model DistModel, range1Mi
 				if sp.i == sp.j {
 					outmatrix[sp.i][sp.i] = 0
 				} else {
-					if outmatrix[sp.i][sp.j], err = model.Distance(sp.seq1, sp.seq2, sp.weights); err != nil {
+					// The error is local to the worker: assigning the shared err here would
+					// let a later successful evaluation of another worker erase it
+					d, e := model.Distance(sp.seq1, sp.seq2, sp.weights)
+					if e != nil {
+						mux.Lock()
+						if err == nil {
+							err = e
+						}
+						mux.Unlock()
 						return
 					}
+					outmatrix[sp.i][sp.j] = d
 					outmatrix[sp.j][sp.i] = outmatrix[sp.i][sp.j]
 					mux.Lock()
 					if outmatrix[sp.i][sp.j] < 0 || outmatrix[sp.i][sp.j] == math.Inf(1) || outmatrix[sp.i][sp.j] > NT_DIST_OVER {
